@@ -32,12 +32,13 @@ Tab(rs) == [cols |-> <<"a", "y", "p">>, rows |-> [i \in 1..Len(rs) |-> [a |-> rs
 QuickTables == { Tab(<<<<VInt(2), U>>, <<VInt(1), V>>, <<VInt(2), V>>>>),          \* a key twice, not adjacent; unique (a, y)
                  Tab(<<<<VInt(1), U>>, <<VInt(2), U>>, <<VInt(1), U>>>>),          \* an (a, y) cell twice
                  Tab(<<<<VFlt(1, 1), V>>, <<None, U>>, <<VInt(1), U>>>>),          \* 1.0 and 1: one key; None
-                 Tab(<<<<VInt(1), U>>, <<VInt(1), V>>>>),                          \* one key class
+                 Tab(<<<<VInt(1), V>>, <<VInt(2), U>>>>),                          \* in order by a, not by y
                  Tab(<<>>) }
 WideTables == QuickTables \cup
                { Tab(<<<<VNaN(1), U>>, <<VInt(1), V>>, <<VNaN(2), V>>, <<VInt(1), U>>>>),             \* two NaN objects: one key
                  Tab(<<<<VStr("ab"), W>>, <<VInt(2), U>>, <<None, W>>, <<VStr("ab"), U>>>>),             \* mixed-type key column
                  Tab(<<<<VInt(3), U>>, <<VInt(2), V>>, <<VInt(1), W>>, <<VInt(2), U>>>>),
+                 Tab(<<<<VInt(1), U>>, <<VInt(1), V>>>>),                                              \* one key class
                  Tab(<<<<VInt(1), U>>>>) }
 \* (labels are strings of the ordered universe: an unpivoted table shows them in its y column and may be sorted by it)
 AU == {None, VInt(1), VFlt(1, 1), VInt(2), VNaN(1)}
@@ -45,7 +46,7 @@ YU == {U, V, W}
 \* (the big universe is spelled out inside the IF: TLC evaluates every zero-arity definition when it starts)
 Tables == IF Scope = "quick" THEN QuickTables ELSE IF Scope = "wide" THEN WideTables
           ELSE {Tab(r) : r \in [1..3 -> AU \X YU]}
-Keys2 == IF Scope = "quick" THEN {<<"a", "y">>} ELSE IF Scope = "wide" THEN {<<"a", "y">>, <<"y", "a">>, <<"y">>}
+Keys2 == IF Scope = "quick" THEN {<<"y", "a">>} ELSE IF Scope = "wide" THEN {<<"a", "y">>, <<"y", "a">>, <<"y">>}
          ELSE {<<"a", "y">>, <<"y">>}
 NameU == IF Scope = "quick" THEN {<<"a">>, <<"a", "y">>, <<"y">>} ELSE {<<"a">>, <<"a", "y">>, <<"y">>, <<"y", "a">>, <<"p">>}
 Labels(T) == LET pv == CPivot(T, <<"a">>, "y", "p", "last") IN SubSeq(pv.cols, 2, Len(pv.cols))
@@ -94,11 +95,12 @@ UnpivotCalls == {[Mk("unpivot", s, k, PForm(k, f)) EXCEPT !.y = "y", !.z = "p", 
 InvOK(cl) == cl.op = "unpivot" => (store[cl.key].val = aux[cl.on].pv.key /\ cl.yk \in YSlots(cl.on))
 
 \* edits: the key column a of a table object, re-assigned in place with the same cells in another order (reversed: d[col] = ..,
-\* rotated: d.col = ..); Loose: also the y column, every cell the first one, both ways of assigning
+\* rotated: d.col = ..); Loose: also the y column, every cell the first one, every way of assigning (also d.update({col: ..}))
 ColVals(s, col) == [i \in 1..Rows(s) |-> store[s].val.rows[i][col]]
 Rot(xs) == Tail(xs) \o <<Head(xs)>>
 EditKinds(xs) == {<<"setitem", Reverse(xs)>>, <<"setattr", Rot(xs)>>}
-                     \cup (IF Loose THEN {<<"setattr", Reverse(xs)>>, <<"setitem", Rot(xs)>>, <<"setitem", [i \in 1..Len(xs) |-> xs[1]]>>} ELSE {})
+                     \cup (IF Loose THEN {<<"setattr", Reverse(xs)>>, <<"setitem", Rot(xs)>>, <<"setitem", [i \in 1..Len(xs) |-> xs[1]]>>,
+                                           <<"update", Reverse(xs)>>, <<"update", Rot(xs)>>} ELSE {})
 EditOf(s, col) == {[NoCall EXCEPT !.op = "edit", !.on = s, !.col = col, !.how = e[1], !.vals = e[2]] :
                        e \in {e \in EditKinds(ColVals(s, col)) : e[2] # ColVals(s, col)}}
 EditCalls == UNION {UNION {EditOf(s, col) : col \in {cc \in (IF Loose THEN {"a", "y"} ELSE {"a"}) : cc \in Cols(s)}}
@@ -143,7 +145,7 @@ Next == Sort \/ Listby \/ Groupby \/ Pivot \/ Unlist \/ Ungroup \/ Unpivot \/ Ed
 \* ---- what the statement says about every step ---------------------------------------------------
 ModelCmp(u, by) == [p \in 1..(Len(u.rows) - 1) |-> [k \in 1..Len(by) |-> CmpModel(u.rows[p][by[k]], u.rows[p + 1][by[k]])]]
 LastColcmp == IF last.call.op = "unlist" /\ last.pv.ok THEN ModelCmp(store[Len(store)].val, last.pv.key) ELSE <<>>
-StepLaw == last.call.op # "" => StepVerdict(last.pre, last.call, "", store, LastColcmp, "p", last.pv) = ""
+StepLaw == last.call.op # "" => StepVerdict(last.pre, last.call, "", store, LastColcmp, "p", last.pv, {}) = ""
 \* the ids that name the rows stay unique in every scalar table of the store (the witness of stability)
 IdsUnique == \A s \in Slots({"table"}) : "p" \in Cols(s) => \A i, j \in 1..Rows(s) : i # j => store[s].val.rows[i].p # store[s].val.rows[j].p
 
